@@ -37,7 +37,7 @@ def relation_ctors(Q, T):
 
 def run(check):
     tier = check.tier
-    types = ['double'] if tier == 'quick' else ['double', 'float', 'long double']
+    types = ['double', 'float', 'long double']
     check.checker_cmd = 'clang++ -ast-dump=json | phqv lower | phqv symex (REAL) -> z3 -T:120 qfnra-nlsat'
     check.assume('REAL: machine arithmetic treated as exact real arithmetic; "to within a few ulps" is not machine-checked (for additive pairs such as total = static + dynamic pressure no floating-point implementation can return a to a few ulps of a when a << b; see DESIGN.md)')
     check.assume('all scalar inputs positive (as the property states); for additive relations C = A +/- B the composed argument is whatever the first relation returns')
@@ -45,8 +45,9 @@ def run(check):
     check.assume('the composition is required only where both relations are defined: every divisor met on the way is non-zero and every square-root argument non-negative (e.g. heat capacity ratio != 1 for cp = gamma R/(gamma-1))')
     tasks = []
     npairs = 0
+    loaded = dict(zip(types, pmap(lambda T_: Quant(check, types=(T_,), other_types=(), conv=False, hash_=False), types)))
     for T in types:
-        Q = Quant(check, types=(T,), other_types=(), conv=False, hash_=False)
+        Q = loaded[T]
         low = Q.low
         tag = T.replace(' ', '_')
         rels = relation_ctors(Q, T)
